@@ -67,7 +67,7 @@ def gen_case(rng, tier, index):
             ops.append(["spec", k, rng.choice(["master", "dev"]), "t%d" % rng.randrange(3), rng.choice([".", "sub", "sub2"]),
                         rng.randrange(nrepo)])
         elif r < 0.67:
-            k = rng.choice(["dirty", "untracked", "commit", "branch", "detach"])
+            k = rng.choice(["dirty", "untracked", "commit", "branch", "detach", "sidebranch", "stash"])
             ops.append(["user", k, rng.randrange(2), rng.choice(FILES), marker()])
         else:
             k = rng.choice(["dev", "dev", "dev", "dev-clean-checkout", "clean-s", "clean-attic"])
@@ -90,7 +90,10 @@ def directed_cases(tier):
          "commit": ["spec", "commit", "master", "t0", ".", 0]}
     pairs = [("commit", "commit_on_branch"), ("commit", "tag_on_branch"), ("dirty", "branch"), ("untracked", "tag"),
              ("commit", "dir"), ("branch", "toimport"), ("detach", "branch"), ("commit", "branch"), ("untracked", "toimport"),
-             ("dirty", "commit_on_branch"), ("branch", "commit"), ("detach", "tag_on_branch")]
+             ("dirty", "commit_on_branch"), ("branch", "commit"), ("detach", "tag_on_branch"),
+             # work that leaves the checkout looking pristine: a commit on a side branch (switched back),
+             # a stash; the checkout then goes to the attic / becomes unused and is cleaned non-forced
+             ("sidebranch", "toimport"), ("stash", "toimport"), ("sidebranch", "branch"), ("stash", "dir")]
     n = 0
     for release in (False, True):
         for u, sp in pairs:
@@ -101,7 +104,15 @@ def directed_cases(tier):
                                 ["bob", "dev", n + 100], ["bob", "clean-s", n + 200], ["bob", "clean-attic", n + 300],
                                 ["bob", "dev", n + 400]]})
     if tier != "thorough":
-        out = out[:6] + out[12:14] + out[14::3]
+        npairs = len(pairs)
+        out = out[:6] + out[12:16] + out[npairs:npairs + 2] + out[npairs + 2::3] + out[2 * npairs - 4:]
+        seen, uniq = set(), []
+        for c in out:
+            k = (c["release"], c["directed"])
+            if k not in seen:
+                seen.add(k)
+                uniq.append(c)
+        out = uniq
     return out
 
 # ---------------------------------------------------------------------------
@@ -386,6 +397,23 @@ def run_case(case):
                         common.write_file(os.path.join(d, "ub-%s.txt" % mark[:8]), mark + "\n")
                         git.run(d, "add", "-A")
                         git.run(d, "commit", "-q", "-m", "user branch " + mark)
+                    elif k == "sidebranch":
+                        cur = git.run(d, "rev-parse", "--abbrev-ref", "HEAD").stdout.decode().strip()
+                        if cur == "HEAD":
+                            continue
+                        git.run(d, "checkout", "-q", "-b", "side-" + mark[:8].lower())
+                        common.write_file(os.path.join(d, "us-%s.txt" % mark[:8]), mark + "\n")
+                        git.run(d, "add", "-A")
+                        git.run(d, "commit", "-q", "-m", "user side branch " + mark)
+                        git.run(d, "checkout", "-q", cur)
+                    elif k == "stash":
+                        p = os.path.join(d, f)
+                        if not os.path.isfile(p):
+                            continue
+                        with open(p, "a") as fh:
+                            fh.write(mark + "\n")
+                        if git.run(d, "stash", "push", "-q", "-m", "user stash " + mark, check=False).returncode != 0:
+                            continue
                     elif k == "detach":
                         git.run(d, "checkout", "-q", "--detach")
                         common.write_file(os.path.join(d, "ud-%s.txt" % mark[:8]), mark + "\n")
